@@ -1,9 +1,2010 @@
-//! C09 — not implemented yet.
-use crate::util::{Args, Out};
-use serde_json::{Value, json};
+//! C09 — staged (macro) code means the same as the code it generates.
+//!
+//! One description (a G-AST program whose sub-expressions carry *staging markers*, a text
+//! template with a hole, or a macro-stage arithmetic expression) is printed twice: as the
+//! staged program (quotes, splices, macro calls, macro-stage functions / closures / numeric
+//! recursion building code, lift) and as its hand expansion. Both texts are compiled and run
+//! by the real compiler on the VM and on WASM; the oracle compares accept/reject and every
+//! output bit of staged vs expanded *per back end* (never VM against WASM), and lifted numbers
+//! against the value the reference interpreter computes for the macro-stage expression.
 
-pub fn meta(_args: &Args) -> Value {
-    json!({"level": "exploration", "rule": "not implemented", "floor": {"quick": 1000000, "thorough": 1000000}})
+use super::progcase::{feat_for, input_fn, norm};
+use super::{drive, replay_one};
+use crate::gens::core::*;
+use crate::gens::shrink::visit;
+use crate::refsem;
+use crate::run::{Backend, BuildError, RunError, RunOut, run_program};
+use crate::util::{Args, Out, Rng, bits_eq};
+use serde::{Deserialize, Serialize};
+use serde_json::{Value, json};
+use std::collections::{BTreeMap, BTreeSet, HashMap};
+
+// ====================================================================== case
+
+#[derive(Clone, Debug, Serialize, Deserialize)]
+pub struct SCase {
+    /// "program" | "form" | "fixture" | "lift"
+    pub family: String,
+    pub staged: String,
+    /// hand expansion (empty for the lift family, whose expectation is `lifts`)
+    #[serde(default)]
+    pub expanded: String,
+    /// (form x context) tags of the staging constructs in `staged`
+    #[serde(default)]
+    pub tags: Vec<String>,
+    /// class tag used in violation signatures
+    #[serde(default)]
+    pub class: String,
+    pub n: usize,
+    #[serde(default)]
+    pub input_seed: u64,
+    /// program family: the marked G-AST both texts were printed from (minimiser, reference run)
+    #[serde(default)]
+    pub marked: Option<Program>,
+    /// lift family: per output channel (spelling, macro-stage expression, expected f64 bits in hex)
+    #[serde(default)]
+    pub lifts: Vec<(String, String, String)>,
 }
-pub fn run(_args: &Args, _out: &mut Out) {}
-pub fn replay(_args: &Args, _out: &mut Out, _case: &Value) {}
+
+// ====================================================================== G-AST utilities
+
+fn map_block(b: &Block, f: &mut dyn FnMut(&E) -> E) -> Block {
+    let mut stmts = Vec::with_capacity(b.stmts.len());
+    for s in &b.stmts {
+        stmts.push(match s {
+            Stmt::Let(p, t, e) => Stmt::Let(p.clone(), t.clone(), f(e)),
+            Stmt::Assign(n, e) => Stmt::Assign(n.clone(), f(e)),
+        });
+    }
+    let result = f(&b.result);
+    Block { stmts, result }
+}
+
+/// Rebuild `e` with every direct child mapped by `f` (left to right).
+fn map_children(e: &E, f: &mut dyn FnMut(&E) -> E) -> E {
+    let bx = |x: &E, f: &mut dyn FnMut(&E) -> E| Box::new(f(x));
+    match e {
+        E::Num(..) | E::Var(_) | E::FnRef(_) | E::SelfE | E::Now | E::SampleRate => e.clone(),
+        E::Bin(op, a, b) => {
+            let a2 = bx(a, f);
+            let b2 = bx(b, f);
+            E::Bin(*op, a2, b2)
+        }
+        E::PipeVal(a, b) => {
+            let a2 = bx(a, f);
+            let b2 = bx(b, f);
+            E::PipeVal(a2, b2)
+        }
+        E::Neg(a) => E::Neg(bx(a, f)),
+        E::Not(a) => E::Not(bx(a, f)),
+        E::Proj(a, i) => E::Proj(bx(a, f), *i),
+        E::Field(a, n) => E::Field(bx(a, f), n.clone()),
+        E::Mem(a, s) => E::Mem(bx(a, f), *s),
+        E::PipeFn { arg, name, site } => E::PipeFn { arg: bx(arg, f), name: name.clone(), site: *site },
+        E::Builtin(n, v) => E::Builtin(n.clone(), v.iter().map(|x| f(x)).collect()),
+        E::Tuple(v) => E::Tuple(v.iter().map(|x| f(x)).collect()),
+        E::CallFn { name, args, style, site } => {
+            E::CallFn { name: name.clone(), args: args.iter().map(|x| f(x)).collect(), style: *style, site: *site }
+        }
+        E::CallVal(c, v) => {
+            let c2 = bx(c, f);
+            E::CallVal(c2, v.iter().map(|x| f(x)).collect())
+        }
+        E::If(c, a, b) => {
+            let c2 = bx(c, f);
+            let a2 = bx(a, f);
+            let b2 = bx(b, f);
+            E::If(c2, a2, b2)
+        }
+        E::Record(fs) => E::Record(fs.iter().map(|(n, x)| (n.clone(), f(x))).collect()),
+        E::Lambda(ps, b) => E::Lambda(ps.clone(), Box::new(map_block(b, f))),
+        E::Block(b) => E::Block(Box::new(map_block(b, f))),
+        E::Delay(n, x, t, s) => {
+            let x2 = bx(x, f);
+            let t2 = bx(t, f);
+            E::Delay(*n, x2, t2, *s)
+        }
+    }
+}
+
+/// Top-down rewrite: where `g` answers, its answer replaces the node (no descent).
+fn rewrite(e: &E, g: &mut dyn FnMut(&E) -> Option<E>) -> E {
+    if let Some(n) = g(e) {
+        return n;
+    }
+    map_children(e, &mut |c| rewrite(c, g))
+}
+fn rewrite_block(b: &Block, g: &mut dyn FnMut(&E) -> Option<E>) -> Block {
+    map_block(b, &mut |c| rewrite(c, g))
+}
+/// Bottom-up rewrite.
+fn rewrite_up(e: &E, g: &mut dyn FnMut(E) -> E) -> E {
+    let e2 = map_children(e, &mut |c| rewrite_up(c, g));
+    g(e2)
+}
+fn rewrite_up_block(b: &Block, g: &mut dyn FnMut(E) -> E) -> Block {
+    map_block(b, &mut |c| rewrite_up(c, g))
+}
+
+fn blk(e: E) -> E {
+    E::Block(Box::new(Block { stmts: vec![], result: e }))
+}
+fn num(v: f64) -> E {
+    E::Num(v, false)
+}
+fn bin(op: BinOp, a: E, b: E) -> E {
+    E::Bin(op, Box::new(a), Box::new(b))
+}
+fn var(n: &str) -> E {
+    E::Var(n.to_string())
+}
+
+fn pat_names(p: &Pat, out: &mut BTreeSet<String>) {
+    match p {
+        Pat::Var(v) => {
+            out.insert(v.clone());
+        }
+        Pat::Tup(v) => v.iter().for_each(|x| pat_names(x, out)),
+        Pat::Rec(v) => v.iter().for_each(|(_, b)| {
+            out.insert(b.clone());
+        }),
+    }
+}
+
+/// (names bound inside `e`, variables used in order of first use, variables assigned)
+fn names_of(e: &E) -> (BTreeSet<String>, Vec<String>, Vec<String>) {
+    let mut bound = BTreeSet::new();
+    let mut used: Vec<String> = vec![];
+    let mut assigned: Vec<String> = vec![];
+    visit(e, &mut |x| match x {
+        E::Var(n) => {
+            if !used.contains(n) {
+                used.push(n.clone());
+            }
+        }
+        E::Lambda(ps, b) => {
+            for p in ps {
+                bound.insert(p.name.clone());
+            }
+            for s in &b.stmts {
+                match s {
+                    Stmt::Let(p, _, _) => pat_names(p, &mut bound),
+                    Stmt::Assign(n, _) => assigned.push(n.clone()),
+                }
+            }
+        }
+        E::Block(b) => {
+            for s in &b.stmts {
+                match s {
+                    Stmt::Let(p, _, _) => pat_names(p, &mut bound),
+                    Stmt::Assign(n, _) => assigned.push(n.clone()),
+                }
+            }
+        }
+        _ => {}
+    });
+    (bound, used, assigned)
+}
+fn free_vars(e: &E) -> Vec<String> {
+    let (bound, used, _) = names_of(e);
+    used.into_iter().filter(|n| !bound.contains(n)).collect()
+}
+fn assigns_outer(e: &E) -> bool {
+    let (bound, _, assigned) = names_of(e);
+    assigned.iter().any(|n| !bound.contains(n))
+}
+fn mentions_self(e: &E) -> bool {
+    let mut f = false;
+    visit(e, &mut |x| {
+        if matches!(x, E::SelfE) {
+            f = true
+        }
+    });
+    f
+}
+fn mentions_fn(e: &E, name: &str) -> bool {
+    let mut f = false;
+    visit(e, &mut |x| match x {
+        E::FnRef(n) if n == name => f = true,
+        E::CallFn { name: n, .. } | E::PipeFn { name: n, .. } if n == name => f = true,
+        E::Builtin(n, _) if n.starts_with(MK) && n.ends_with(&format!(":{name}")) => f = true,
+        _ => {}
+    });
+    f
+}
+/// a projection / field access whose base is a variable free in `e` (or `self`): as an untyped
+/// macro parameter its tuple / record type could not be inferred
+fn projects_free_var(e: &E) -> bool {
+    let fv = free_vars(e);
+    let mut f = false;
+    visit(e, &mut |x| {
+        if let E::Proj(b, _) | E::Field(b, _) = x {
+            match &**b {
+                E::Var(n) if fv.contains(n) => f = true,
+                E::SelfE => f = true,
+                _ => {}
+            }
+        }
+    });
+    f
+}
+fn node_count(e: &E) -> usize {
+    let mut n = 0;
+    visit(e, &mut |_| n += 1);
+    n
+}
+fn has_state(e: &E) -> bool {
+    let mut f = false;
+    visit(e, &mut |x| {
+        if matches!(x, E::SelfE | E::Mem(..) | E::Delay(..)) {
+            f = true
+        }
+    });
+    f
+}
+fn form_name(e: &E) -> &'static str {
+    match e {
+        E::Num(_, true) => "lit-int",
+        E::Num(..) => "lit-float",
+        E::Var(_) => "var",
+        E::Bin(op, ..) => match op {
+            BinOp::Add | BinOp::Sub | BinOp::Mul | BinOp::Div | BinOp::Mod | BinOp::Pow => "binop-arith",
+            BinOp::And | BinOp::Or => "binop-logic",
+            _ => "binop-compare",
+        },
+        E::Neg(_) => "neg",
+        E::Not(_) => "not",
+        E::Builtin(..) => "builtin-call",
+        E::CallFn { style: CallStyle::Positional, args, .. } => match args.len() {
+            0 => "call-0",
+            1 => "call-1",
+            2 => "call-2",
+            _ => "call-3+",
+        },
+        E::CallFn { .. } => "call-record-args",
+        E::CallVal(..) => "call-fn-value",
+        E::PipeFn { .. } | E::PipeVal(..) => "pipe",
+        E::If(..) => "if",
+        E::Tuple(_) => "tuple",
+        E::Proj(..) => "projection",
+        E::Record(_) => "record",
+        E::Field(..) => "field-access",
+        E::Lambda(ps, _) => {
+            if ps.len() == 1 {
+                "lambda-1"
+            } else {
+                "lambda-n"
+            }
+        }
+        E::FnRef(_) => "fn-ref",
+        E::Block(_) => "block",
+        E::SelfE => "self",
+        E::Mem(..) => "mem",
+        E::Delay(..) => "delay",
+        E::Now => "now",
+        E::SampleRate => "samplerate",
+    }
+}
+
+fn max_site(p: &Program) -> u32 {
+    let mut m = 0u32;
+    let mut f = |x: &E| match x {
+        E::CallFn { site, .. } | E::PipeFn { site, .. } | E::Mem(_, site) | E::Delay(_, _, _, site) => m = m.max(*site),
+        _ => {}
+    };
+    for (_, _, e) in p.pre_globals.iter().chain(p.globals.iter()) {
+        visit(e, &mut f);
+    }
+    for fd in p.fns.iter().chain(std::iter::once(&p.dsp)) {
+        crate::gens::shrink::visit_block_pub(&fd.body, &mut f);
+    }
+    m
+}
+/// a textual copy of `e` is a new set of call sites
+fn copy_fresh_sites(e: &E, next: &mut u32) -> E {
+    rewrite_up(e, &mut |x| match x {
+        E::CallFn { name, args, style, .. } => {
+            *next += 1;
+            E::CallFn { name, args, style, site: *next }
+        }
+        E::PipeFn { arg, name, .. } => {
+            *next += 1;
+            E::PipeFn { arg, name, site: *next }
+        }
+        E::Mem(a, _) => {
+            *next += 1;
+            E::Mem(a, *next)
+        }
+        E::Delay(n, x, t, _) => {
+            *next += 1;
+            E::Delay(n, x, t, *next)
+        }
+        o => o,
+    })
+}
+
+/// Evaluate a closed float expression with the reference interpreter ("stage 0" value).
+fn eval_closed(e: &E) -> Option<f64> {
+    let prog = Program {
+        pre_globals: vec![],
+        fns: vec![],
+        globals: vec![],
+        dsp: FnDef { name: "dsp".into(), params: vec![], ret: Ty::F, ret_annot: false, body: Block { stmts: vec![], result: e.clone() }, stateful: true },
+        features: vec![],
+    };
+    match refsem::run(&prog, 1, &|_, _| 0.0) {
+        Ok((v, _)) if v.len() == 1 => Some(v[0]),
+        _ => None,
+    }
+}
+/// can the G-AST printer write this value as a literal that reads back exactly?
+fn printable_literal(v: f64) -> bool {
+    v.is_finite() && (v > 0.0 || v.to_bits() == 0) && !format!("{v:?}").contains('e')
+}
+fn expr_text(e: &E) -> String {
+    let mut p = Printer::new();
+    p.expr(e);
+    p.out
+}
+
+// ====================================================================== staging markers
+
+/// A marker is `E::Builtin("c09:<kind>", [wrapped expression])`: the one description from
+/// which the staged text (`Rend`) and the hand expansion (`erase`) are both produced.
+const MK: &str = "c09:";
+
+fn mark(kind: &str, e: E) -> E {
+    E::Builtin(format!("{MK}{kind}"), vec![e])
+}
+fn as_marker(e: &E) -> Option<(&str, &[E])> {
+    match e {
+        E::Builtin(n, a) => n.strip_prefix(MK).map(|k| (k, a.as_slice())),
+        _ => None,
+    }
+}
+fn ctx_of(kind: &str) -> String {
+    // context tag without numeric parameters / names
+    let parts: Vec<&str> = kind.split(':').collect();
+    match parts[0] {
+        "rec" => format!("rec:{}", parts[1]),
+        "lift" => format!("lift:{}", parts.get(1).copied().unwrap_or("")),
+        _ => kind.to_string(),
+    }
+}
+
+const W: &str = "c9w";
+
+/// The hand expansion of marker `kind` around the (already expanded) expression `e`.
+fn expand(kind: &str, e: E, next_site: &mut u32) -> E {
+    let parts: Vec<&str> = kind.split(':').collect();
+    let n: usize = parts.get(2).and_then(|s| s.parse().ok()).unwrap_or(1);
+    match (parts[0], parts.get(1).copied().unwrap_or("")) {
+        ("qs", "b") => blk(e),
+        ("qs", "p") => e,
+        ("qs", "n") => blk(blk(e)),
+        ("mac", _) => blk(e),
+        ("letc", "1a") => blk(e),
+        ("letc", "1b") => blk(blk(e)),
+        ("letc", "2") => {
+            let c = copy_fresh_sites(&e, next_site);
+            blk(bin(BinOp::Add, blk(e), blk(c)))
+        }
+        ("letc", "3") => {
+            let c1 = copy_fresh_sites(&e, next_site);
+            let c2 = copy_fresh_sites(&e, next_site);
+            blk(bin(BinOp::Sub, bin(BinOp::Add, blk(e), blk(c1)), blk(c2)))
+        }
+        ("fn", "id") => blk(e),
+        ("fn", "app") => E::Block(Box::new(Block { stmts: vec![Stmt::Let(Pat::Var(W.into()), None, blk(e))], result: var(W) })),
+        ("fn", "mul") => blk(bin(BinOp::Mul, blk(e), num(2.0))),
+        ("fn", "twice") => blk(bin(BinOp::Add, blk(bin(BinOp::Add, blk(e), num(1.0))), num(1.0))),
+        ("fn", "glob") => blk(bin(BinOp::Mul, blk(e), num(0.5))),
+        ("rec", "rep") => {
+            let mut acc = num(0.0);
+            for k in 0..n {
+                let c = if k == 0 { e.clone() } else { copy_fresh_sites(&e, next_site) };
+                acc = blk(bin(BinOp::Add, acc, blk(c)));
+            }
+            acc
+        }
+        ("rec", "nest") => {
+            let mut acc = blk(e);
+            for _ in 0..n {
+                acc = E::Block(Box::new(Block { stmts: vec![Stmt::Let(Pat::Var(W.into()), None, acc)], result: var(W) }));
+            }
+            acc
+        }
+        ("rec", "pow") => {
+            let mut body = num(1.0);
+            for _ in 0..n {
+                body = blk(bin(BinOp::Mul, body, var("c9x")));
+            }
+            let lam = E::Lambda(
+                vec![Param { name: "c9x".into(), ty: Ty::F, annot: true, default: None }],
+                Box::new(Block { stmts: vec![], result: body }),
+            );
+            E::CallVal(Box::new(blk(lam)), vec![e])
+        }
+        ("rec", "iter") => {
+            let fname = parts.get(3).copied().unwrap_or("");
+            let mut acc = blk(e);
+            for _ in 0..n {
+                *next_site += 1;
+                acc = blk(E::CallFn { name: fname.to_string(), args: vec![acc], style: CallStyle::Positional, site: *next_site });
+            }
+            acc
+        }
+        ("lift", _) => match eval_closed(&e) {
+            Some(v) if printable_literal(v) => num(v),
+            // not writable as a literal of the language: the run-time computation stands in
+            _ => e,
+        },
+        _ => e,
+    }
+}
+
+/// Remove all markers: the G-AST of the hand expansion.
+fn erase_expr(e: &E, next_site: &mut u32) -> E {
+    rewrite_up(e, &mut |x| {
+        let kind = as_marker(&x).map(|(k, _)| k.to_string());
+        match (kind, x) {
+            (Some(k), E::Builtin(_, mut a)) if a.len() == 1 => expand(&k, a.remove(0), next_site),
+            (_, x) => x,
+        }
+    })
+}
+pub fn erase(p: &Program) -> Program {
+    let mut next = max_site(p) + 1000;
+    let mut q = p.clone();
+    for (_, _, e) in q.pre_globals.iter_mut() {
+        *e = erase_expr(e, &mut next);
+    }
+    for f in q.fns.iter_mut() {
+        f.body = map_block(&f.body, &mut |c| erase_expr(c, &mut next));
+    }
+    for (_, _, e) in q.globals.iter_mut() {
+        *e = erase_expr(e, &mut next);
+    }
+    q.dsp.body = map_block(&q.dsp.body, &mut |c| erase_expr(c, &mut next));
+    q
+}
+fn marker_kinds(p: &Program) -> Vec<(String, &'static str)> {
+    let mut out = vec![];
+    let mut f = |x: &E| {
+        if let Some((k, a)) = as_marker(x) {
+            out.push((k.to_string(), a.first().map(form_name).unwrap_or("none")));
+        }
+    };
+    for (_, _, e) in p.pre_globals.iter().chain(p.globals.iter()) {
+        visit(e, &mut f);
+    }
+    for fd in p.fns.iter().chain(std::iter::once(&p.dsp)) {
+        crate::gens::shrink::visit_block_pub(&fd.body, &mut f);
+    }
+    out
+}
+
+// ====================================================================== staged text
+
+const HELPERS: [(&str, &str); 9] = [
+    ("c9_id", "fn c9_id(c){ c }"),
+    ("c9_app", "fn c9_app(f, c){ f(c) }"),
+    ("c9_twice", "fn c9_twice(f, c){ f(f(c)) }"),
+    ("c9_half", "let c9_half = |c| `{ ($c) * 0.5 }"),
+    ("c9_rep", "fn c9_rep(n, c){\n  if (n > 0.0) {\n    `{ $(c9_rep(n - 1.0, c)) + $c }\n  } else {\n    `0.0\n  }\n}"),
+    ("c9_nest", "fn c9_nest(n, c){\n  if (n > 0.0) {\n    `{ let c9w = $(c9_nest(n - 1.0, c))\n      c9w }\n  } else {\n    c\n  }\n}"),
+    ("c9_powaux", "fn c9_powaux(n, x){\n  if (n > 0.0) {\n    `{ $(c9_powaux(n - 1.0, x)) * $x }\n  } else {\n    `1.0\n  }\n}"),
+    ("c9_pow", "fn c9_pow(n){ `{ |c9x:float| $(c9_powaux(n, `c9x)) } }"),
+    ("c9_iter", "fn c9_iter(n, f, c){\n  if (n > 0.0) {\n    c9_iter(n - 1.0, f, `{ ($f)($c) })\n  } else {\n    c\n  }\n}"),
+];
+
+fn helper_section(used: &BTreeSet<&'static str>) -> String {
+    let mut s = String::new();
+    if used.is_empty() {
+        return s;
+    }
+    s.push_str("#stage(macro)\n");
+    for (n, d) in HELPERS.iter() {
+        // c9_pow needs c9_powaux
+        if used.contains(n) || (*n == "c9_powaux" && used.contains("c9_pow")) {
+            s.push_str(d);
+            s.push('\n');
+        }
+    }
+    s.push_str("#stage(main)\n");
+    s
+}
+
+struct Rend {
+    /// macro-stage definitions needed by the item being printed
+    defs: Vec<String>,
+    /// helper definitions (macro stage, top of the file) in order of first use
+    hdefs: Vec<String>,
+    hseen: BTreeSet<String>,
+    nid: usize,
+    tags: Vec<String>,
+}
+
+fn ph(k: usize) -> String {
+    format!("\u{1}{k}\u{2}")
+}
+
+impl Rend {
+    fn new() -> Rend {
+        Rend { defs: vec![], hdefs: vec![], hseen: BTreeSet::new(), nid: 0, tags: vec![] }
+    }
+    fn fill(&mut self, mut s: String, found: Vec<E>) -> String {
+        for (k, m) in found.iter().enumerate() {
+            let t = self.marker(m);
+            s = s.replace(&ph(k), &format!("({t})"));
+        }
+        s
+    }
+    /// text of an expression that may contain markers
+    fn text(&mut self, e: &E) -> String {
+        let mut found: Vec<E> = vec![];
+        let e2 = rewrite(e, &mut |x| {
+            if as_marker(x).is_some() {
+                found.push(x.clone());
+                Some(E::Var(ph(found.len() - 1)))
+            } else {
+                None
+            }
+        });
+        let s = expr_text(&e2);
+        self.fill(s, found)
+    }
+    fn fn_text(&mut self, f: &FnDef) -> String {
+        let mut found: Vec<E> = vec![];
+        let body = rewrite_block(&f.body, &mut |x| {
+            if as_marker(x).is_some() {
+                found.push(x.clone());
+                Some(E::Var(ph(found.len() - 1)))
+            } else {
+                None
+            }
+        });
+        let mut p = Printer::new();
+        p.fndef(&FnDef { body, ..f.clone() });
+        let s = p.out;
+        self.fill(s, found)
+    }
+    fn id(&mut self) -> usize {
+        self.nid += 1;
+        self.nid
+    }
+    /// Name of a macro-stage helper. User functions are monomorphic, so a helper that is generic in
+    /// the type of the code it handles gets one instance per use.
+    fn helper(&mut self, base: &'static str, generic: bool) -> String {
+        let name = if generic { format!("{base}_{}", self.id()) } else { base.to_string() };
+        if self.hseen.insert(name.clone()) {
+            if base == "c9_pow" && self.hseen.insert("c9_powaux".into()) {
+                self.hdefs.push(HELPERS.iter().find(|h| h.0 == "c9_powaux").unwrap().1.to_string());
+            }
+            let def = HELPERS.iter().find(|h| h.0 == base).unwrap().1;
+            self.hdefs.push(def.replace(base, &name));
+        }
+        name
+    }
+    fn helper_section(&self) -> String {
+        if self.hdefs.is_empty() {
+            return String::new();
+        }
+        format!("#stage(macro)\n{}\n#stage(main)\n", self.hdefs.join("\n"))
+    }
+    /// staged spelling of one marker (without the surrounding parentheses)
+    fn marker(&mut self, m: &E) -> String {
+        let (kind, args) = as_marker(m).expect("marker");
+        let kind = kind.to_string();
+        let e = &args[0];
+        self.tags.push(format!("{}×{}", form_name(e), ctx_of(&kind)));
+        let parts: Vec<&str> = kind.split(':').collect();
+        let n: usize = parts.get(2).and_then(|s| s.parse().ok()).unwrap_or(1);
+        match (parts[0], parts.get(1).copied().unwrap_or("")) {
+            ("qs", "b") => format!("$(`{{ {} }})", self.text(e)),
+            ("qs", "p") => format!("$(`({}))", self.text(e)),
+            ("qs", "n") => format!("$(`{{ $(`{{ {} }}) }})", self.text(e)),
+            ("mac", sugar) => {
+                let id = self.id();
+                let fv = free_vars(e);
+                let mut map: HashMap<String, String> = HashMap::new();
+                let mut params: Vec<String> = vec![];
+                let mut cargs: Vec<String> = vec![];
+                for (i, v) in fv.iter().enumerate() {
+                    let p = format!("c9a{id}_{i}");
+                    map.insert(v.clone(), format!("(${p})"));
+                    cargs.push(format!("`{v}"));
+                    params.push(p);
+                }
+                let self_param = if mentions_self(e) {
+                    let p = format!("c9s{id}");
+                    cargs.push("`self".into());
+                    params.push(p.clone());
+                    Some(format!("(${p})"))
+                } else {
+                    None
+                };
+                let e2 = rewrite(e, &mut |x| match x {
+                    E::Var(n) => map.get(n).map(|r| E::Var(r.clone())),
+                    E::SelfE => self_param.as_ref().map(|r| E::Var(r.clone())),
+                    _ => None,
+                });
+                let body = self.text(&e2);
+                self.defs.push(format!("fn c9_m{id}({}){{\n  `{{ {body} }}\n}}", params.join(", ")));
+                if sugar == "1" {
+                    format!("c9_m{id}!({})", cargs.join(", "))
+                } else {
+                    format!("$(c9_m{id}({}))", cargs.join(", "))
+                }
+            }
+            ("letc", k) => {
+                let id = self.id();
+                let c = format!("c9c{id}");
+                let t = self.text(e);
+                let sp = format!("(${c})");
+                let body = match k {
+                    "1a" => c.clone(),
+                    "1b" => format!("`{{ {sp} }}"),
+                    "2" => format!("`{{ ({sp} + {sp}) }}"),
+                    _ => format!("`{{ (({sp} + {sp}) - {sp}) }}"),
+                };
+                format!("$({{ let {c} = `{{ {t} }}\n {body} }})")
+            }
+            ("fn", "id") => {
+                let h = self.helper("c9_id", true);
+                format!("{h}!(`{{ {} }})", self.text(e))
+            }
+            ("fn", "app") => {
+                let h = self.helper("c9_app", true);
+                format!("{h}!(|c| `{{ let {W} = $c\n {W} }}, `{{ {} }})", self.text(e))
+            }
+            ("fn", "mul") => {
+                let h = self.helper("c9_app", true);
+                format!("$({h}(|c| `{{ ($c) * 2.0 }}, `{{ {} }}))", self.text(e))
+            }
+            ("fn", "twice") => {
+                self.helper("c9_twice", false);
+                format!("c9_twice!(|c| `{{ ($c) + 1.0 }}, `{{ {} }})", self.text(e))
+            }
+            ("fn", "glob") => {
+                self.helper("c9_half", false);
+                format!("$(c9_half(`{{ {} }}))", self.text(e))
+            }
+            ("rec", "rep") => {
+                self.helper("c9_rep", false);
+                format!("c9_rep!({n}.0, `{{ {} }})", self.text(e))
+            }
+            ("rec", "nest") => {
+                let h = self.helper("c9_nest", true);
+                format!("$({h}({n}.0, `{{ {} }}))", self.text(e))
+            }
+            ("rec", "pow") => {
+                self.helper("c9_pow", false);
+                format!("(c9_pow!({n}.0))({})", self.text(e))
+            }
+            ("rec", "iter") => {
+                self.helper("c9_iter", false);
+                let fname = parts.get(3).copied().unwrap_or("");
+                format!("c9_iter!({n}.0, `{fname}, `{{ {} }})", self.text(e))
+            }
+            ("lift", sp) => {
+                let a = expr_text(e);
+                match sp {
+                    "splice" => format!("$(lift_f({a}))"),
+                    "bang" => format!("lift_f!({a})"),
+                    "pipe" => format!("$(({a}) |> lift_f)"),
+                    "poly" => format!("lift!({a})"),
+                    "let" => format!("$({{ let c9t = {a}\n lift_f(c9t) }})"),
+                    _ => {
+                        let id = self.id();
+                        self.defs.push(format!("fn c9_l{id}(){{ lift_f({a}) }}"));
+                        format!("c9_l{id}!()")
+                    }
+                }
+            }
+            _ => self.text(e),
+        }
+    }
+    fn flush_defs(&mut self, out: &mut String) {
+        if !self.defs.is_empty() {
+            out.push_str("#stage(macro)\n");
+            for d in self.defs.drain(..) {
+                out.push_str(&d);
+                out.push('\n');
+            }
+            out.push_str("#stage(main)\n");
+        }
+    }
+}
+
+/// staged text + tags of a marked program
+pub fn render_staged(p: &Program) -> (String, Vec<String>) {
+    let mut r = Rend::new();
+    let mut body = String::new();
+    for (n, _t, e) in &p.pre_globals {
+        let t = r.text(e);
+        r.flush_defs(&mut body);
+        body.push_str(&format!("let {n} = {t}\n"));
+    }
+    for f in &p.fns {
+        let t = r.fn_text(f);
+        r.flush_defs(&mut body);
+        body.push_str(&t);
+    }
+    for (n, _t, e) in &p.globals {
+        let t = r.text(e);
+        r.flush_defs(&mut body);
+        body.push_str(&format!("let {n} = {t}\n"));
+    }
+    let t = r.fn_text(&p.dsp);
+    r.flush_defs(&mut body);
+    body.push_str(&t);
+    (format!("{}{}", r.helper_section(), body), r.tags)
+}
+
+// ====================================================================== record patterns (quarantine)
+
+/// `let {p = a, q = b} = e` -> `let c9rK = e; let a = c9rK.p; let b = c9rK.q`
+/// (generator-side avoidance of the known finding `record-pattern-in-quote`).
+fn desugar_stmts(b: Block, k: &mut usize) -> Block {
+    let mut stmts = vec![];
+    for s in b.stmts {
+        match s {
+            Stmt::Let(Pat::Rec(fields), _, e) => {
+                *k += 1;
+                let tmp = format!("c9r{k}");
+                stmts.push(Stmt::Let(Pat::Var(tmp.clone()), None, e));
+                for (f, bnd) in fields {
+                    stmts.push(Stmt::Let(Pat::Var(bnd), None, E::Field(Box::new(E::Var(tmp.clone())), f)));
+                }
+            }
+            o => stmts.push(o),
+        }
+    }
+    Block { stmts, result: b.result }
+}
+fn desugar_expr(e: &E, k: &mut usize) -> E {
+    let e2 = map_children(e, &mut |c| desugar_expr(c, k));
+    match e2 {
+        E::Block(b) => E::Block(Box::new(desugar_stmts(*b, k))),
+        E::Lambda(ps, b) => E::Lambda(ps, Box::new(desugar_stmts(*b, k))),
+        o => o,
+    }
+}
+fn desugar_record_patterns(p: &Program) -> Program {
+    let mut k = 0usize;
+    let mut q = p.clone();
+    for (_, _, e) in q.pre_globals.iter_mut().chain(q.globals.iter_mut()) {
+        *e = desugar_expr(e, &mut k);
+    }
+    for f in q.fns.iter_mut().chain(std::iter::once(&mut q.dsp)) {
+        let b = map_block(&f.body, &mut |c| desugar_expr(c, &mut k));
+        f.body = desugar_stmts(b, &mut k);
+    }
+    q
+}
+fn has_record_pattern(p: &Program) -> bool {
+    p.features.iter().any(|f| f == "let_record_pattern")
+}
+
+// ====================================================================== marker insertion
+
+#[derive(Clone, Debug)]
+struct Cand {
+    idx: usize,
+    is_f: bool,
+    weight: u32,
+    mac_ok: bool,
+    size: usize,
+    is_num: bool,
+    item: usize,
+    /// contexts that change the value (copies, x^n, lifted arithmetic) are allowed here
+    value_ok: bool,
+}
+
+struct Walk<'a> {
+    next: usize,
+    cands: Vec<Cand>,
+    chosen: Option<&'a BTreeMap<usize, String>>,
+    encl: String,
+    item: usize,
+    prog: &'a Program,
+    /// >0: inside a recursion guard / delay time, where only meaning-preserving contexts may go
+    novalue: u32,
+}
+
+fn intrinsic_float(e: &E) -> bool {
+    matches!(e, E::Num(..) | E::Bin(..) | E::Neg(_) | E::Not(_) | E::Mem(..) | E::Delay(..) | E::Now | E::SampleRate)
+        || matches!(e, E::Builtin(n, _) if !n.starts_with(MK))
+}
+
+impl<'a> Walk<'a> {
+    fn block(&mut self, b: &Block, fres: bool) -> Block {
+        let mut stmts = vec![];
+        for s in &b.stmts {
+            stmts.push(match s {
+                Stmt::Let(p, t, e) => {
+                    let f = matches!(p, Pat::Var(_)) && *t == Some(Ty::F);
+                    Stmt::Let(p.clone(), t.clone(), self.expr(e, f))
+                }
+                Stmt::Assign(n, e) => Stmt::Assign(n.clone(), self.expr(e, true)),
+            });
+        }
+        let result = self.expr(&b.result, fres);
+        Block { stmts, result }
+    }
+    fn args_of(&mut self, name: &str, args: &[E]) -> Vec<E> {
+        let tys: Vec<bool> = match self.prog.find_fn(name) {
+            Some(fd) => fd.params.iter().map(|p| p.ty == Ty::F).collect(),
+            None => vec![],
+        };
+        let mut out = vec![];
+        for (i, a) in args.iter().enumerate() {
+            // the first argument of a bounded-recursion helper is its counter
+            let guard = i == 0 && name.starts_with("rf");
+            self.novalue += guard as u32;
+            out.push(self.expr(a, tys.get(i).copied().unwrap_or(false)));
+            self.novalue -= guard as u32;
+        }
+        out
+    }
+    fn expr(&mut self, e: &E, fpos: bool) -> E {
+        let idx = self.next;
+        self.next += 1;
+        let is_f = fpos || intrinsic_float(e);
+        let bx = |x: E| Box::new(x);
+        let e2 = match e {
+            E::Num(..) | E::Var(_) | E::FnRef(_) | E::SelfE | E::Now | E::SampleRate => e.clone(),
+            E::Bin(op, a, b) => {
+                let a2 = self.expr(a, true);
+                let b2 = self.expr(b, true);
+                E::Bin(*op, bx(a2), bx(b2))
+            }
+            E::Neg(a) => E::Neg(bx(self.expr(a, true))),
+            E::Not(a) => E::Not(bx(self.expr(a, true))),
+            E::Mem(a, s) => E::Mem(bx(self.expr(a, true)), *s),
+            E::Delay(n, x, t, s) => {
+                let x2 = self.expr(x, true);
+                self.novalue += 1;
+                let t2 = self.expr(t, true);
+                self.novalue -= 1;
+                E::Delay(*n, bx(x2), bx(t2), *s)
+            }
+            E::Builtin(n, v) => E::Builtin(n.clone(), v.iter().map(|x| self.expr(x, true)).collect()),
+            E::CallFn { name, args, style, site } => {
+                let args2 = match (style, args.first()) {
+                    (CallStyle::Positional, _) => self.args_of(name, args),
+                    (_, Some(E::Record(fs))) => {
+                        // the record literal is call syntax, not an expression position
+                        vec![E::Record(fs.iter().map(|(n, x)| (n.clone(), self.expr(x, false))).collect())]
+                    }
+                    _ => args.clone(),
+                };
+                E::CallFn { name: name.clone(), args: args2, style: *style, site: *site }
+            }
+            E::PipeFn { arg, name, site } => {
+                let a2 = self.args_of(name, std::slice::from_ref(arg)).remove(0);
+                E::PipeFn { arg: bx(a2), name: name.clone(), site: *site }
+            }
+            E::CallVal(c, v) => {
+                let c2 = self.expr(c, false);
+                E::CallVal(bx(c2), v.iter().map(|x| self.expr(x, false)).collect())
+            }
+            E::PipeVal(a, b) => {
+                let a2 = self.expr(a, false);
+                let b2 = self.expr(b, false);
+                E::PipeVal(bx(a2), bx(b2))
+            }
+            E::If(c, a, b) => {
+                let c2 = self.expr(c, true);
+                let a2 = self.expr(a, is_f);
+                let b2 = self.expr(b, is_f);
+                E::If(bx(c2), bx(a2), bx(b2))
+            }
+            E::Tuple(v) => E::Tuple(v.iter().map(|x| self.expr(x, false)).collect()),
+            E::Record(fs) => E::Record(fs.iter().map(|(n, x)| (n.clone(), self.expr(x, false))).collect()),
+            E::Proj(a, i) => E::Proj(bx(self.expr(a, false)), *i),
+            E::Field(a, n) => E::Field(bx(self.expr(a, false)), n.clone()),
+            E::Lambda(ps, b) => E::Lambda(ps.clone(), Box::new(self.block(b, false))),
+            E::Block(b) => E::Block(Box::new(self.block(b, is_f))),
+        };
+        // `{ x = e ...` standing alone would be read as a record literal (the generator only
+        // produces such blocks as if-arms): not a position for a marker
+        let assign_block = matches!(e, E::Block(b) if matches!(b.stmts.first(), Some(Stmt::Assign(..))));
+        match self.chosen {
+            None if assign_block => e2,
+            None => {
+                let leaf = matches!(e, E::Num(..) | E::Var(_) | E::FnRef(_) | E::Now | E::SampleRate);
+                let weight = if has_state(e) { 6 } else if leaf { 1 } else { 3 };
+                self.cands.push(Cand {
+                    idx,
+                    is_f,
+                    weight,
+                    mac_ok: !assigns_outer(e) && (self.encl.is_empty() || !mentions_fn(e, &self.encl)) && !projects_free_var(e),
+                    size: node_count(e),
+                    is_num: matches!(e, E::Num(..)),
+                    item: self.item,
+                    value_ok: self.novalue == 0,
+                });
+                e2
+            }
+            Some(ch) => match ch.get(&idx) {
+                Some(kind) if kind.starts_with("lift:") => {
+                    // the literal becomes macro-stage arithmetic on it
+                    let E::Num(v, _) = e else { return e2 };
+                    let k = kind.as_bytes().last().copied().unwrap_or(b'0') - b'0';
+                    let a = lift_arith(*v, k as usize);
+                    mark(kind.rsplit_once(':').map(|x| x.0).unwrap_or(kind), a)
+                }
+                Some(kind) => mark(kind, e2),
+                None => e2,
+            },
+        }
+    }
+    fn program(&mut self) -> Program {
+        let p = self.prog;
+        let mut q = p.clone();
+        let mut item = 0;
+        for (i, (_, t, e)) in p.pre_globals.iter().enumerate() {
+            self.item = item;
+            self.encl = String::new();
+            q.pre_globals[i].2 = self.expr(e, *t == Ty::F);
+            item += 1;
+        }
+        for (i, f) in p.fns.iter().enumerate() {
+            self.item = item;
+            self.encl = f.name.clone();
+            self.novalue = f.name.starts_with("rf") as u32;
+            q.fns[i].body = self.block(&f.body, f.ret == Ty::F);
+            self.novalue = 0;
+            item += 1;
+        }
+        for (i, (_, t, e)) in p.globals.iter().enumerate() {
+            self.item = item;
+            self.encl = String::new();
+            q.globals[i].2 = self.expr(e, *t == Ty::F);
+            item += 1;
+        }
+        self.item = item;
+        self.encl = "dsp".into();
+        q.dsp.body = self.block(&p.dsp.body, p.dsp.ret == Ty::F);
+        q
+    }
+}
+
+/// macro-stage arithmetic around a literal of the program
+fn lift_arith(v: f64, k: usize) -> E {
+    match k % 6 {
+        0 => bin(BinOp::Add, num(v), num(0.1)),
+        1 => bin(BinOp::Div, num(v), num(3.0)),
+        2 => bin(BinOp::Mul, bin(BinOp::Add, num(v), num(0.2)), num(0.7)),
+        3 => E::Builtin("sqrt".into(), vec![bin(BinOp::Add, num(v), num(2.0))]),
+        4 => bin(BinOp::Sub, bin(BinOp::Mul, num(v), num(1.1)), num(0.3)),
+        _ => num(v),
+    }
+}
+
+/// pure named functions float -> float defined before item `item` (print order)
+fn pure_unary_fns(p: &Program, item: usize) -> Vec<String> {
+    let npg = p.pre_globals.len();
+    p.fns
+        .iter()
+        .enumerate()
+        .filter(|(i, f)| {
+            npg + i < item && !f.stateful && f.ret == Ty::F && f.params.len() == 1 && f.params[0].ty == Ty::F && f.params[0].default.is_none()
+                && !f.name.starts_with("rf")
+        })
+        .map(|(_, f)| f.name.clone())
+        .collect()
+}
+
+fn choose_kind(c: &Cand, p: &Program, rng: &mut Rng) -> String {
+    if c.is_num && c.value_ok && rng.chance(1, 2) {
+        let sp = *rng.pick(&["splice", "bang", "pipe", "poly", "let", "fn"]);
+        return format!("lift:{sp}:{}", rng.below(6));
+    }
+    let mut ks: Vec<String> = vec!["qs:b".into(), "qs:p".into(), "qs:n".into(), "letc:1a".into(), "letc:1b".into(), "fn:id".into(), "fn:app".into()];
+    ks.push(format!("rec:nest:{}", 1 + rng.below(8)));
+    if c.mac_ok {
+        // weight the macro-call contexts up
+        for _ in 0..2 {
+            ks.push("mac:0".into());
+            ks.push("mac:1".into());
+        }
+    }
+    if c.is_f && c.value_ok {
+        ks.push("fn:mul".into());
+        ks.push("fn:twice".into());
+        ks.push("fn:glob".into());
+        ks.push(format!("rec:pow:{}", rng.below(9)));
+        if c.size <= 40 {
+            ks.push("letc:2".into());
+            ks.push("letc:3".into());
+            ks.push(format!("rec:rep:{}", rng.below(9)));
+        }
+        let fns = pure_unary_fns(p, c.item);
+        if !fns.is_empty() {
+            ks.push(format!("rec:iter:{}:{}", rng.below(9), rng.pick(&fns)));
+        }
+    }
+    rng.pick(&ks).clone()
+}
+
+pub fn insert_markers(p: &Program, rng: &mut Rng, max_markers: usize) -> Program {
+    let mut w = Walk { next: 0, cands: vec![], chosen: None, encl: String::new(), item: 0, prog: p, novalue: 0 };
+    let _ = w.program();
+    let cands = w.cands;
+    if cands.is_empty() {
+        return p.clone();
+    }
+    let want = 1 + rng.below(max_markers);
+    let weights: Vec<u32> = cands.iter().map(|c| c.weight).collect();
+    let mut chosen: BTreeMap<usize, String> = BTreeMap::new();
+    for _ in 0..want {
+        let c = &cands[rng.weighted(&weights)];
+        if chosen.contains_key(&c.idx) {
+            continue;
+        }
+        let k = choose_kind(c, p, rng);
+        chosen.insert(c.idx, k);
+    }
+    let mut w2 = Walk { next: 0, cands: vec![], chosen: Some(&chosen), encl: String::new(), item: 0, prog: p, novalue: 0 };
+    w2.program()
+}
+
+// ====================================================================== form table (text templates)
+
+/// One core expression form as text. `prog` is a whole program with `@` where the expression
+/// goes and a line `#M#` where macro-stage definitions may be inserted (before the function that
+/// contains the hole, after everything the expression refers to). In `expr`, `%name` marks a
+/// local variable of the hole's scope (`%self` = self): macro-call contexts abstract over them.
+struct Form {
+    name: &'static str,
+    prog: &'static str,
+    expr: &'static str,
+}
+
+const DSP: &str = "#M#\nfn dsp(c9in:float){\n  let a = c9in * 0.5 + 1.25\n  let b = now + 2.0\n  let r = {p = a, q = 3.0}\n  let t = (b, (a, 7.0))\n  @\n}\n";
+
+macro_rules! form {
+    ($n:expr, $pre:expr, $e:expr) => {
+        Form { name: $n, prog: concat!($pre, "\u{3}"), expr: $e }
+    };
+}
+
+fn forms() -> Vec<Form> {
+    // "\u{3}" stands for the default dsp with the bare hole as result
+    vec![
+        form!("lit-float", "", "1.5"),
+        form!("lit-int", "", "7"),
+        form!("lit-float-many-digits", "", "0.30000000000000004 + 123456.789"),
+        Form { name: "lit-string", prog: "#M#\nfn dsp(c9in:float){\n  let a = c9in + 1.0\n  let s = @\n  a\n}\n", expr: "\"abc def\"" },
+        form!("var", "", "%a"),
+        form!("var-global", "let c9g = 3.5\n", "c9g + %a"),
+        form!("apply-0", "fn c9f0(){ 42.0 }\n", "c9f0()"),
+        form!("apply-1", "fn c9f1(x){ x * 2.0 + 1.0 }\n", "c9f1(%a)"),
+        form!("apply-2", "fn c9f2(x, y){ x * 10.0 - y }\n", "c9f2(%a, %b)"),
+        form!("apply-3", "fn c9f3(x, y, z){ x * 100.0 + y * 10.0 + z }\n", "c9f3(%a, %b, 1.0)"),
+        form!("apply-5", "fn c9f5(x, y, z, u, v){ x + y * 2.0 + z * 3.0 + u * 4.0 + v * 5.0 }\n", "c9f5(%a, %b, 1.0, %a, 2.0)"),
+        form!("apply-builtin", "", "sin(%a) + max(%a, %b)"),
+        form!("binop-arith", "", "%a * %b - %a / 3.0 + %b ^ 2.0"),
+        form!("binop-compare-logic", "", "(%a > %b) + (%a <= 2.0) * 2.0 + ((%a >= 1.0) && (%b != 2.0)) * 4.0 + ((%a == 1.25) || (%b < 0.0)) * 8.0"),
+        form!("unary-minus", "", "-%a + (-(%b * 2.0))"),
+        form!("apply-tuple-arg", "fn c9f2(x, y){ x * 10.0 - y }\n", "c9f2((%a, %b))"),
+        form!("apply-default-arg", "fn c9fd(x:float, y:float = 5.0){ x * 10.0 + y }\n", "c9fd({x = %a}) + c9fd({x = %a, y = %b})"),
+        form!("apply-hof", "fn c9f1(x){ x * 2.0 + 1.0 }\nfn c9h(f:(float)->float, x){ f(f(x)) }\n", "c9h(c9f1, %a) + c9h(|z| z - %b, 1.0)"),
+        form!("lambda-0", "", "(| | %a + 1.0)()"),
+        form!("lambda-1", "", "(|x| x * %a)(2.0)"),
+        form!("lambda-n", "", "(|x, y, z| x * y + %a - z)(2.0, %b, 1.0)"),
+        form!("lambda-typed", "", "(|x:float, y:float| -> float { x - y })(%a, %b)"),
+        form!("lambda-closure-capture", "", "{ let k = %a * 2.0\n let c9l = |x| x + k\n c9l(1.0) + c9l(%b) }"),
+        form!("let-single", "", "{ let u = %a * 2.0\n u + 1.0 }"),
+        form!("let-typed", "", "{ let u:float = %a\n u - 1.0 }"),
+        form!("let-tuple", "", "{ let (u, w) = (%a, %b)\n u * 10.0 + w }"),
+        form!("let-tuple-nested", "", "{ let (u, (w, z)) = %t\n u * 100.0 + w * 10.0 + z }"),
+        form!("let-tuple-nested-deep", "", "{ let ((u, w), (x, (y, z))) = ((%a, 2.0), (%b, (4.0, 5.0)))\n u + w * 2.0 + x * 3.0 + y * 4.0 + z * 5.0 }"),
+        form!("let-record", "", "{ let {p = u, q = w} = %r\n u * 10.0 + w }"),
+        form!("let-placeholder", "", "{ let _ = %a\n %b }"),
+        form!("let-tuple-placeholder", "", "{ let (u, _) = (%a, %b)\n u }"),
+        form!("let-shadowing", "", "{ let u = %a\n let u = u + 1.0\n let u = u * 2.0\n u }"),
+        form!("letrec", "", "{ letrec c9fact = |n:float| -> float { if (n > 0.0) n * c9fact(n - 1.0) else 1.0 }\n c9fact(4.0) + %a }"),
+        form!("if-else", "", "if (%a > 1.5) { %a } else { %b }"),
+        form!("if-else-blocks", "", "if (%a > 1.5) { let u = %a\n u * 2.0 } else { %b + 1.0 }"),
+        form!("if-else-if", "", "if (%a > 3.0) 1.0 else if (%a > 1.5) 2.0 else 3.0"),
+        form!("if-else-no-braces", "", "if (%a * 2.0 > 3.0) 1.0 + %b else 2.0 * %b"),
+        form!("if-nested", "", "if (%a > 1.0) { if (%b > 3.0) 10.0 else 20.0 } else { 30.0 }"),
+        form!("if-without-else", "", "{ let u = %a\n if (%b > 3.0) { u = 100.0 }\n u }"),
+        form!("sequence-assign", "", "{ let u = 1.0\n u = %a\n u = u + %b\n u }"),
+        form!("assign-captured", "", "{ let u = %a\n let inc = | | { u = u + 1.0\n u }\n inc() + inc() * 10.0 }"),
+        form!("tuple", "", "{ let c9t = (%a, %b, 3.0)\n c9t.0 + c9t.1 * 10.0 + c9t.2 * 100.0 }"),
+        form!("tuple-nested", "", "{ let c9t = ((%a, 5.0), %b)\n c9t.0.1 + c9t.1 * 10.0 + c9t.0.0 * 100.0 }"),
+        form!("projection", "", "%t.0 + %t.1.1"),
+        form!("array-literal", "", "{ let c9arr = [%a, %b, 3.0]\n c9arr[0] + c9arr[1] * 10.0 + c9arr[2] * 100.0 }"),
+        form!("array-access", "let c9garr = [10.0, 20.0, 40.0]\n", "c9garr[1] + c9garr[0] * %a"),
+        form!("array-access-computed", "let c9garr = [10.0, 20.0, 40.0]\n", "c9garr[%a - %a + 2.0]"),
+        form!("record-literal", "", "{ let c9r = {p = %a, q = %b}\n c9r.p * 10.0 + c9r.q }"),
+        form!("record-literal-shuffled", "", "{ let c9r = {q = %b, p = %a}\n c9r.p * 10.0 + c9r.q }"),
+        form!("record-update", "", "{ let c9q = %r\n let c9r = { c9q <- q = %b }\n c9r.p * 10.0 + c9r.q + c9q.q * 100.0 }"),
+        form!("field-access", "", "%r.p * 2.0 + %r.q"),
+        form!("field-assign", "", "{ let c9r = {p = %a, q = 2.0}\n c9r.p = %b\n c9r.p + c9r.q }"),
+        Form { name: "self", prog: "#M#\nfn c9acc(x){ @ }\nfn dsp(c9in:float){ c9acc(c9in + 1.0) }\n", expr: "%self * 0.5 + %x" },
+        Form { name: "self-tuple", prog: "#M#\nfn c9acc(x)->(float,float){ @ }\nfn dsp(c9in:float){ let (u, w) = c9acc(c9in + 1.0)\n u + w * 0.001 }\n", expr: "{ let (s0, s1) = %self\n (s0 + %x, s1 + s0) }" },
+        form!("now-samplerate", "", "now * 2.0 + samplerate"),
+        form!("block", "", "{ %a + 1.0 }"),
+        form!("block-nested", "", "{ let u = { let w = %a\n w + 1.0 }\n { u * 2.0 } }"),
+        form!("match-int", "", "match (%a - %a + 1.0) { 0 => 100.0, 1 => 200.0 + %b, _ => 300.0 }"),
+        form!("match-enum", "type C9E = One(float) | Two(float)\n", "match One(%a) { One(v) => v * 2.0, Two(v) => 0.0 - v } + match Two(%b) { One(v) => v, Two(v) => v * 3.0 }"),
+        form!("match-enum-unit", "type C9D = Up | Down\n", "match Down { Up => { %a }, Down => { %b } }"),
+        form!("pipe", "fn c9f1(x){ x * 2.0 + 1.0 }\nfn c9f2(x, y){ x * 10.0 - y }\n", "(%a |> c9f1) + ((%a, %b) |> c9f2)"),
+        form!("pipe-macro-placeholder", "", "%a ||> _ * 2.0 ||> _ + %b"),
+        form!("mem-delay", "", "mem(%a) + delay(4.0, %b, 2.0) * 10.0"),
+        form!("stateful-call", "fn c9cnt(x){ self + x }\n", "c9cnt(%a) + c9cnt(1.0) * 0.5"),
+        form!("stateful-call-nested", "fn c9cnt(x){ self + x }\nfn c9two(x){ c9cnt(x) * 2.0 + mem(x) }\n", "c9two(%a) + c9cnt(c9two(%b))"),
+        form!("closure-returned", "fn c9mk(k){ |x| x * k }\n", "c9mk(%a)(%b)"),
+    ]
+}
+
+const FORM_CTXS: [&str; 17] = [
+    "qs:b", "qs:p", "qs:n", "mac:1", "mac:0", "mac:sugar=splice", "letc:1a", "letc:1b", "letc:pair", "letc:triple", "fn:id", "fn:app", "fn:glob-id",
+    "rec:nest:1", "rec:nest:3", "rec:nest:8", "qs-in-mac",
+];
+
+fn plain_vars(expr: &str) -> String {
+    expr.replace('%', "")
+}
+fn form_vars(expr: &str) -> Vec<String> {
+    let mut out: Vec<String> = vec![];
+    let b: Vec<char> = expr.chars().collect();
+    let mut i = 0;
+    while i < b.len() {
+        if b[i] == '%' {
+            let mut j = i + 1;
+            while j < b.len() && (b[j].is_alphanumeric() || b[j] == '_') {
+                j += 1;
+            }
+            let n: String = b[i + 1..j].iter().collect();
+            if !out.contains(&n) {
+                out.push(n);
+            }
+            i = j;
+        } else {
+            i += 1;
+        }
+    }
+    out
+}
+
+/// (staged text for the hole, macro definitions, helper names, expanded text for the hole)
+fn form_ctx(expr: &str, ctx: &str) -> (String, Vec<String>, Vec<&'static str>, String) {
+    let e = plain_vars(expr);
+    let macro_def = |name: &str, inner: &dyn Fn(&str) -> String| {
+        let vars = form_vars(expr);
+        let mut body = expr.to_string();
+        // longest names first so that %ab is not hit by %a
+        let mut vs = vars.clone();
+        vs.sort_by_key(|v| std::cmp::Reverse(v.len()));
+        for v in &vs {
+            let i = vars.iter().position(|x| x == v).unwrap();
+            body = body.replace(&format!("%{v}"), &format!("($c9a{i})"));
+        }
+        let params: Vec<String> = vars
+            .iter()
+            .enumerate()
+            .map(|(i, v)| {
+                let ty = match v.as_str() {
+                    "r" => "`{p:float, q:float}",
+                    "t" => "`(float,(float,float))",
+                    "self" if expr.contains("(s0, s1)") => "`(float,float)",
+                    _ => "`float",
+                };
+                format!("c9a{i}:{ty}")
+            })
+            .collect();
+        let cargs: Vec<String> = vars.iter().map(|v| format!("`{v}")).collect();
+        (format!("fn {name}({}){{\n  `{{ {} }}\n}}", params.join(", "), inner(&body)), cargs.join(", "))
+    };
+    match ctx {
+        "qs:b" => (format!("$(`{{ {e} }})"), vec![], vec![], format!("{{ {e} }}")),
+        "qs:p" => (format!("$(`({e}))"), vec![], vec![], format!("({e})")),
+        "qs:n" => (format!("$(`{{ $(`{{ {e} }}) }})"), vec![], vec![], format!("{{ {{ {e} }} }}")),
+        "mac:1" => {
+            let (d, a) = macro_def("c9_m1", &|b| b.to_string());
+            (format!("c9_m1!({a})"), vec![d], vec![], format!("{{ {e} }}"))
+        }
+        "mac:0" => {
+            let (d, a) = macro_def("c9_m1", &|b| b.to_string());
+            (format!("$(c9_m1({a}))"), vec![d], vec![], format!("{{ {e} }}"))
+        }
+        "mac:sugar=splice" => {
+            // both sides staged: `f!(args)` against `$(f(args))`
+            let (d, a) = macro_def("c9_m1", &|b| b.to_string());
+            (format!("c9_m1!({a})"), vec![d], vec![], format!("$(c9_m1({a}))"))
+        }
+        "qs-in-mac" => {
+            let (d, a) = macro_def("c9_m1", &|b| format!("$(`{{ {b} }})"));
+            (format!("c9_m1!({a})"), vec![d], vec![], format!("{{ {{ {e} }} }}"))
+        }
+        "letc:1a" => (format!("$({{ let c9c = `{{ {e} }}\n c9c }})"), vec![], vec![], format!("{{ {e} }}")),
+        "letc:1b" => (format!("$({{ let c9c = `{{ {e} }}\n `{{ $c9c }} }})"), vec![], vec![], format!("{{ {{ {e} }} }}")),
+        "letc:pair" => (
+            format!("($({{ let c9c = `{{ {e} }}\n `{{ ($c9c, $c9c) }} }})).1"),
+            vec![],
+            vec![],
+            format!("({{ ({{ {e} }}, {{ {e} }}) }}).1"),
+        ),
+        "letc:triple" => (
+            format!("($({{ let c9c = `{{ {e} }}\n let c9d = c9c\n `{{ ($c9c, $c9d, $c9c) }} }})).2"),
+            vec![],
+            vec![],
+            format!("({{ ({{ {e} }}, {{ {e} }}, {{ {e} }}) }}).2"),
+        ),
+        "fn:id" => (format!("c9_id!(`{{ {e} }})"), vec![], vec!["c9_id"], format!("{{ {e} }}")),
+        "fn:app" => (
+            format!("c9_app!(|c| `{{ let {W} = $c\n {W} }}, `{{ {e} }})"),
+            vec![],
+            vec!["c9_app"],
+            format!("{{ let {W} = {{ {e} }}\n {W} }}"),
+        ),
+        "fn:glob-id" => (
+            format!("$(c9_wrap(`{{ {e} }}))"),
+            vec!["let c9_wrap = |c| `{ let c9w = $c\n c9w }".to_string()],
+            vec![],
+            format!("{{ let {W} = {{ {e} }}\n {W} }}"),
+        ),
+        c if c.starts_with("rec:nest:") => {
+            let n: usize = c[9..].parse().unwrap_or(1);
+            let mut x = format!("{{ {e} }}");
+            for _ in 0..n {
+                x = format!("{{ let {W} = {x}\n {W} }}");
+            }
+            (format!("$(c9_nest({n}.0, `{{ {e} }}))"), vec![], vec!["c9_nest"], x)
+        }
+        _ => (e.clone(), vec![], vec![], e),
+    }
+}
+
+fn form_case(f: &Form, ctx: &str, n: usize, input_seed: u64) -> SCase {
+    let prog = f.prog.replace('\u{3}', DSP);
+    let (st, defs, helpers, ex) = form_ctx(f.expr, ctx);
+    let used: BTreeSet<&'static str> = helpers.into_iter().collect();
+    let mut msec = String::new();
+    if !defs.is_empty() {
+        msec.push_str("#stage(macro)\n");
+        for d in &defs {
+            msec.push_str(d);
+            msec.push('\n');
+        }
+        msec.push_str("#stage(main)");
+    }
+    let staged = format!("{}{}", helper_section(&used), prog.replace("#M#", &msec).replace('@', &format!("({st})")));
+    let expanded = if ctx == "mac:sugar=splice" {
+        prog.replace("#M#", &msec).replace('@', &format!("({ex})"))
+    } else {
+        prog.replace("#M#\n", "").replace('@', &format!("({ex})"))
+    };
+    SCase {
+        family: "form".into(),
+        staged,
+        expanded,
+        tags: vec![format!("{}×{}", f.name, ctx)],
+        class: format!("form:{}", f.name),
+        n,
+        input_seed,
+        marked: None,
+        lifts: vec![],
+    }
+}
+
+// ====================================================================== hand-written pairs
+
+/// (name, staged, expansion written by hand)
+fn fixtures() -> Vec<(&'static str, &'static str, &'static str)> {
+    vec![
+        (
+            "genpower-numeric-recursion",
+            "#stage(macro)\nfn genpower(n:float){\n  letrec aux = |n:float,x| {\n    if (n>1){\n      `{ $x * $(aux(n-1,x)) }\n    }else{\n      x\n    }\n  }\n  `{|x:float| $(aux(n,`x))}\n}\nlet k = 3\n#stage(main)\nfn dsp(c9in:float) {\n  genpower!(k)(c9in + 2.0) + genpower!(1)(c9in)\n}\n",
+            "fn dsp(c9in:float) {\n  (|x:float| { x * { x * x } })(c9in + 2.0) + (|x:float| { x })(c9in)\n}\n",
+        ),
+        (
+            "genpower-dollar-block",
+            "${\n  let genpower = |n:float|{\n    letrec aux = |n1:float,x| {\n      if (n1>0){\n        `{$( aux(n1-1,x)) * $x }\n      }else{\n        `1\n      }\n    }\n    `{|x:float| $(aux(n,`x)) }\n  }\n`{\n  let dsp = | | (now + 2.0) |> $(genpower(5))\n}\n}\n",
+            "fn dsp(){\n  (now + 2.0) |> (|x:float| { { { { { 1 * x } * x } * x } * x } * x })\n}\n",
+        ),
+        (
+            "macro-stage-closure-counter",
+            "#stage(macro)\nfn makecounter(){\n  let x = 0.0\n  | | {\n    x = x+1.0\n    x\n  }\n}\nlet counter = makecounter()\n#stage(main)\nfn dsp(){\n  let l = $(counter() |> lift_f)\n  let r = $(counter() |> lift_f)\n  let m = lift_f!(counter() * 0.1)\n  (l, r, m)\n}\n",
+            "fn dsp(){\n  let l = 1.0\n  let r = 2.0\n  let m = 0.30000000000000004\n  (l, r, m)\n}\n",
+        ),
+        (
+            "stereo-synth-code-from-closure",
+            "#stage(macro)\nfn c9_stereo(processor){\n  let left = processor()\n  let right = processor()\n  `{ ($left, $right) }\n}\nfn c9_seedgen(){\n  let x = 0.0\n  | | {\n    x = x + 1.0\n    lift_f(x)\n  }\n}\nlet c9_seed = c9_seedgen()\n#stage(main)\nfn osc(seed, f){ self * 0.5 + seed + f }\nfn dsp(c9in:float){\n  c9_stereo!(| | `{ osc($(c9_seed()), c9in) })\n}\n",
+            "fn osc(seed, f){ self * 0.5 + seed + f }\nfn dsp(c9in:float){\n  { ({ osc(1.0, c9in) }, { osc(2.0, c9in) }) }\n}\n",
+        ),
+        (
+            "macro-stage-tuple-arithmetic",
+            "#stage(macro)\nfn make(){\n  let a = (1.0, 2.0)\n  let b = (3.0, 4.5)\n  let c = a + b\n  let d = a * 10.0\n  `{ $(c.0 |> lift_f) + $(c.1 |> lift_f) * 10.0 + $(d.0 |> lift_f) * 100.0 + $(d.1 |> lift_f) * 1000.0 }\n}\n#stage(main)\nfn dsp(){\n  make!()\n}\n",
+            "fn dsp(){\n  { 4.0 + 6.5 * 10.0 + 10.0 * 100.0 + 20.0 * 1000.0 }\n}\n",
+        ),
+        (
+            "code-array-folded-by-recursion",
+            "#stage(macro)\nfn c9_sum(arr){\n  if (len(arr) > 0){\n    let (h, rest) = split_head(arr)\n    `{ $h + $(c9_sum(rest)) }\n  }else{\n    `0.0\n  }\n}\n#stage(main)\nfn cnt(x){ self + x }\nfn dsp(c9in:float){\n  let a = c9in + 1.0\n  c9_sum!([`a, `{cnt(a)}, `(a * cnt(2.0))])\n}\n",
+            "fn cnt(x){ self + x }\nfn dsp(c9in:float){\n  let a = c9in + 1.0\n  { a + { { cnt(a) } + { (a * cnt(2.0)) + 0.0 } } }\n}\n",
+        ),
+        (
+            "lifted-array",
+            "#stage(macro)\nfn mk(){\n  let arr = [1.5, 0.1 + 0.2, 3.0 / 7.0]\n  arr |> lift\n}\nfn mk2(){\n  lift_arrayf([2.0 ^ 0.5, 10.0])\n}\n#stage(main)\nfn dsp(){\n  let a = mk!()\n  let b = mk2!()\n  (a[0], a[1], a[2], b[0], b[1])\n}\n",
+            "fn dsp(){\n  let a = [1.5, 0.30000000000000004, 0.42857142857142855]\n  let b = [1.4142135623730951, 10.0]\n  (a[0], a[1], a[2], b[0], b[1])\n}\n",
+        ),
+        (
+            "array-of-code-lifted",
+            "#stage(macro)\nfn mk_functions(k){\n  let funcs = [\n    `|x| x + $(lift_f(k)),\n    `|x| x * 2.0,\n  ]\n  funcs |> lift_array_code\n}\n#stage(main)\nfn dsp(c9in:float){\n  let funcs = mk_functions!(0.1 + 0.2)\n  funcs[0](c9in) + funcs[1](10.0)\n}\n",
+            "fn dsp(c9in:float){\n  let funcs = [ |x| x + 0.30000000000000004, |x| x * 2.0 ]\n  funcs[0](c9in) + funcs[1](10.0)\n}\n",
+        ),
+        (
+            "stage-switching-with-main-definitions-between",
+            "#stage(macro)\nlet RANDMAX = 2147483647.0\nfn urand_counter(){\n  let x = 0.0 - 1.0\n  | | {\n    x = x+1\n    lift_f(x)\n  }\n}\nlet global_seed = urand_counter()\n#stage(main)\nfn gen_rand(seed){\n  (self*48271.0) % (2.0^31.0 -1.0)+seed\n}\nfn gen_noise(seed){\n  gen_rand(seed)/$(lift_f(RANDMAX))\n}\n#stage(macro)\nfn unoise(){\n  `gen_noise($(global_seed()) + 1.0)\n}\n#stage(main)\nfn dsp(){\n  let l = unoise!()\n  let r = unoise!()\n  (l,r, global_seed!())\n}\n",
+            "fn gen_rand(seed){\n  (self*48271.0) % (2.0^31.0 -1.0)+seed\n}\nfn gen_noise(seed){\n  gen_rand(seed)/2147483647.0\n}\nfn dsp(){\n  let l = gen_noise(0.0 + 1.0)\n  let r = gen_noise(1.0 + 1.0)\n  (l,r, 2.0)\n}\n",
+        ),
+        (
+            "macro-returning-lambda-applied",
+            "#stage(macro)\nfn c9_gain(g){ `{ |x| x * $(lift_f(g * 0.5)) } }\nfn c9_compose(f, g){ `{ |x| ($g)(($f)(x)) } }\n#stage(main)\nfn cnt(x){ self + x }\nfn dsp(c9in:float){\n  c9_gain!(0.3)(c9in) + c9_compose!(`cnt, c9_gain(4.0))(1.0)\n}\n",
+            "fn cnt(x){ self + x }\nfn dsp(c9in:float){\n  { |x| x * 0.15 }(c9in) + { |x| ({ |x| x * 2.0 })((cnt)(x)) }(1.0)\n}\n",
+        ),
+    ]
+}
+
+// ====================================================================== lifted numbers
+
+const LIFT_SPELLINGS: [&str; 9] = ["splice", "bang", "pipe", "poly", "let", "fn", "global", "in-quote", "rec-sum"];
+const LIFT_LITS: [f64; 24] = [
+    0.0, 1.0, 2.0, 3.0, 10.0, 0.1, 0.2, 0.3, 0.7, 1.5, 7.0, 100.0, 10000000.0, 9007199254740992.0, 0.001, 123456789.0, 0.5, 1023.0, 52.0,
+    300.0, 4503599627370497.0, 0.0001, 1e15, 6.02,
+];
+
+/// macro-stage arithmetic with awkward results first, then random trees
+fn lift_special(k: usize) -> E {
+    let n = num;
+    let neg = |e: E| bin(BinOp::Sub, n(0.0), e);
+    match k {
+        0 => bin(BinOp::Add, n(0.1), n(0.2)),
+        1 => bin(BinOp::Div, n(1.0), n(3.0)),
+        2 => bin(BinOp::Div, n(1.0), n(10000000.0)),
+        3 => bin(BinOp::Add, bin(BinOp::Pow, n(2.0), n(53.0)), n(1.0)),
+        4 => bin(BinOp::Mul, n(0.0), neg(n(1.0))),
+        5 => bin(BinOp::Div, n(1.0), n(0.0)),
+        6 => bin(BinOp::Div, n(0.0), n(0.0)),
+        7 => bin(BinOp::Div, neg(n(1.0)), n(0.0)),
+        8 => bin(BinOp::Pow, n(10.0), n(300.0)),
+        9 => bin(BinOp::Pow, n(10.0), neg(n(300.0))),
+        10 => bin(BinOp::Div, bin(BinOp::Pow, n(10.0), neg(n(300.0))), bin(BinOp::Pow, n(10.0), n(20.0))),
+        11 => bin(BinOp::Mul, bin(BinOp::Sub, n(2.0), bin(BinOp::Pow, n(2.0), neg(n(52.0)))), bin(BinOp::Pow, n(2.0), n(1023.0))),
+        12 => bin(BinOp::Sub, n(9007199254740992.0), n(1.0)),
+        13 => bin(BinOp::Add, n(4503599627370497.0), n(0.5)),
+        14 => E::Builtin("sqrt".into(), vec![n(2.0)]),
+        15 => E::Builtin("sin".into(), vec![n(1.0)]),
+        16 => bin(BinOp::Mul, n(123456789.0), n(0.0001)),
+        17 => bin(BinOp::Div, n(2.0), n(3.0)),
+        18 => neg(bin(BinOp::Div, n(1.0), n(3.0))),
+        19 => bin(BinOp::Sub, bin(BinOp::Add, n(0.1), n(0.2)), n(0.3)),
+        20 => bin(BinOp::Pow, n(2.0), neg(n(1023.0))),
+        _ => bin(BinOp::Mul, n(1e15), n(10.0)),
+    }
+}
+const N_SPECIAL: usize = 22;
+
+fn lift_random(rng: &mut Rng, depth: usize) -> E {
+    if depth == 0 || rng.chance(1, 4) {
+        return num(*rng.pick(&LIFT_LITS));
+    }
+    match rng.below(8) {
+        0 => {
+            let f = *rng.pick(&["sqrt", "sin", "cos", "abs", "floor", "tanh", "atan", "round", "ceil"]);
+            E::Builtin(f.into(), vec![lift_random(rng, depth - 1)])
+        }
+        1 => bin(BinOp::Pow, lift_random(rng, depth - 1), num(*rng.pick(&[2.0, 3.0, 0.5, 10.0]))),
+        k => {
+            let op = [BinOp::Add, BinOp::Sub, BinOp::Mul, BinOp::Div, BinOp::Add, BinOp::Div][k - 2];
+            bin(op, lift_random(rng, depth - 1), lift_random(rng, depth - 1))
+        }
+    }
+}
+
+fn lift_case(rng: &mut Rng, block: usize) -> Option<SCase> {
+    let k = 8;
+    let mut defs: Vec<String> = vec![];
+    let mut chans: Vec<String> = vec![];
+    let mut lifts = vec![];
+    let mut tags = vec![];
+    for i in 0..k {
+        let a = if i < 3 { lift_special((block * 3 + i) % N_SPECIAL) } else { { let d = 1 + rng.below(3); lift_random(rng, d) } };
+        let at = expr_text(&a);
+        let sp = LIFT_SPELLINGS[(block + i * 4 + rng.below(2)) % LIFT_SPELLINGS.len()];
+        let mut want = eval_closed(&a)?;
+        let text = match sp {
+            "splice" => format!("$(lift_f({at}))"),
+            "bang" => format!("lift_f!({at})"),
+            "pipe" => format!("$(({at}) |> lift_f)"),
+            "poly" => format!("lift!({at})"),
+            "let" => format!("$({{ let c9t = {at}\n lift_f(c9t) }})"),
+            "fn" => {
+                defs.push(format!("fn c9_l{i}(){{ lift_f({at}) }}"));
+                format!("c9_l{i}!()")
+            }
+            "global" => {
+                defs.push(format!("let c9_v{i} = {at}"));
+                format!("$(lift_f(c9_v{i}))")
+            }
+            "in-quote" => format!("$(`{{ $(lift_f({at})) }})"),
+            _ => {
+                // numeric recursion at the macro stage: x added m times to 0.0
+                let m = 1 + rng.below(7);
+                defs.push(format!("fn c9_acc{i}(n, x, acc){{ if (n > 0.0) {{ c9_acc{i}(n - 1.0, x, acc + x) }} else {{ acc }} }}"));
+                let x = want;
+                let mut acc = 0.0f64;
+                for _ in 0..m {
+                    acc += x;
+                }
+                want = acc;
+                format!("$(lift_f(c9_acc{i}({m}.0, {at}, 0.0)))")
+            }
+        };
+        chans.push(text);
+        tags.push(format!("lift×{sp}"));
+        lifts.push((sp.to_string(), at, format!("{:016x}", want.to_bits())));
+    }
+    let mut staged = String::new();
+    if !defs.is_empty() {
+        staged.push_str("#stage(macro)\n");
+        for d in &defs {
+            staged.push_str(d);
+            staged.push('\n');
+        }
+        staged.push_str("#stage(main)\n");
+    }
+    staged.push_str(&format!("fn dsp(){{\n  ({})\n}}\n", chans.join(",\n   ")));
+    Some(SCase { family: "lift".into(), staged, expanded: String::new(), tags, class: "lift".into(), n: 2, input_seed: 0, marked: None, lifts })
+}
+
+// ====================================================================== oracle
+
+#[derive(Default)]
+pub struct Checked {
+    /// (clause, back end, detail)
+    pub violations: Vec<(String, String, String)>,
+    pub ran_all: bool,
+    pub compared: u64,
+    pub both_refused: u32,
+    pub inconclusive: Option<String>,
+    pub lifts_checked: u64,
+}
+
+fn outcome_kind(e: &RunError) -> String {
+    // no double quotes: signatures are quoted in KNOWN_FINDINGS.txt
+    outcome_kind_raw(e).replace('"', "'")
+}
+fn outcome_kind_raw(e: &RunError) -> String {
+    match e {
+        RunError::Build(BuildError::Rejected(d)) => format!("rejected({})", d.first().map(|d| norm(&d.message)).unwrap_or_default()),
+        RunError::Build(BuildError::BackendRefused(s)) => format!("backend-refused({})", norm(s)),
+        RunError::Build(BuildError::NoDsp) => "no-dsp".into(),
+        RunError::Build(BuildError::Panicked(ph, p)) => format!("{}@{}", p.sig(), ph),
+        RunError::DspPanic(_, p) => format!("{}@dsp", p.sig()),
+    }
+}
+fn is_budget(e: &RunError) -> bool {
+    match e {
+        RunError::Build(BuildError::Panicked(_, p)) | RunError::DspPanic(_, p) => p.is_verif_tag() == Some("VERIF-STEPS"),
+        _ => false,
+    }
+}
+
+fn run1(b: Backend, src: &str, c: &SCase) -> Result<RunOut, RunError> {
+    let inp = input_fn(c.input_seed, true);
+    run_program(b, src, false, c.n, &inp, false, None)
+}
+
+fn check_pair(c: &SCase) -> Checked {
+    let mut res = Checked { ran_all: true, ..Default::default() };
+    for b in [Backend::Vm, Backend::Wasm] {
+        let s = run1(b, &c.staged, c);
+        let x = run1(b, &c.expanded, c);
+        for r in [&s, &x] {
+            if let Err(e) = r
+                && is_budget(e)
+            {
+                res.inconclusive = Some(format!("instruction budget exhausted on {}", b.name()));
+                res.ran_all = false;
+                return res;
+            }
+        }
+        match (&s, &x) {
+            (Ok(s), Ok(x)) => {
+                res.compared += s.out.len().min(x.out.len()) as u64;
+                if s.channels != x.channels || s.out.len() != x.out.len() {
+                    res.violations.push((
+                        "staged-channel-count-differs-from-expansion".into(),
+                        b.name().into(),
+                        format!("staged {} channels / {} words, expansion {} / {}", s.channels, s.out.len(), x.channels, x.out.len()),
+                    ));
+                } else if let Some(i) = (0..s.out.len()).find(|&i| !bits_eq(s.out[i], x.out[i])) {
+                    let ch = s.channels.max(1);
+                    res.violations.push((
+                        "staged-output-differs-from-expansion".into(),
+                        b.name().into(),
+                        format!("{}: sample {} channel {}: staged {:?} expansion {:?}", b.name(), i / ch, i % ch, s.out[i], x.out[i]),
+                    ));
+                }
+            }
+            (Err(_), Err(_)) => {
+                res.ran_all = false;
+                res.both_refused += 1;
+            }
+            (Err(e), Ok(_)) => {
+                res.ran_all = false;
+                res.violations.push((
+                    format!("expansion-runs-staged-does-not: {}", outcome_kind(e)),
+                    b.name().into(),
+                    format!("{}: staged text: {}", b.name(), e.short()),
+                ));
+            }
+            (Ok(_), Err(e)) => {
+                res.ran_all = false;
+                res.violations.push((
+                    format!("staged-runs-expansion-does-not: {}", outcome_kind(e)),
+                    b.name().into(),
+                    format!("{}: expansion: {}", b.name(), e.short()),
+                ));
+            }
+        }
+    }
+    res
+}
+
+fn check_lift(c: &SCase) -> Checked {
+    let mut res = Checked { ran_all: true, ..Default::default() };
+    let want: Vec<Option<u64>> = c.lifts.iter().map(|l| u64::from_str_radix(&l.2, 16).ok()).collect();
+    if want.iter().any(|w| w.is_none()) {
+        res.inconclusive = Some("unparsable expected bits".into());
+        res.ran_all = false;
+        return res;
+    }
+    for b in [Backend::Vm, Backend::Wasm] {
+        match run1(b, &c.staged, c) {
+            Ok(r) => {
+                if r.channels != want.len() {
+                    res.violations.push((
+                        "lifted-numbers-program-has-wrong-channel-count".into(),
+                        b.name().into(),
+                        format!("{} channels for {} lifted numbers", r.channels, want.len()),
+                    ));
+                    continue;
+                }
+                for (i, w) in r.out.iter().enumerate() {
+                    let k = i % want.len();
+                    let exp = f64::from_bits(want[k].unwrap());
+                    res.lifts_checked += 1;
+                    if !bits_eq(*w, exp) {
+                        res.violations.push((
+                            format!("lifted-number-differs/{}", c.lifts[k].0),
+                            b.name().into(),
+                            format!(
+                                "{}: lift of `{}` ({}): generated code yields {:?} ({:016x}), macro-stage value is {:?} ({:016x})",
+                                b.name(), c.lifts[k].1, c.lifts[k].0, w, w.to_bits(), exp, exp.to_bits()
+                            ),
+                        ));
+                        break;
+                    }
+                }
+            }
+            Err(e) if is_budget(&e) => {
+                res.inconclusive = Some("instruction budget".into());
+                res.ran_all = false;
+                return res;
+            }
+            Err(e) => {
+                res.ran_all = false;
+                res.violations.push((format!("lift-program-does-not-run: {}", outcome_kind(&e)), b.name().into(), e.short()));
+            }
+        }
+    }
+    res
+}
+
+pub fn check(c: &SCase) -> Checked {
+    if c.family == "lift" { check_lift(c) } else { check_pair(c) }
+}
+
+/// merge per-back-end findings of one clause into signatures `clause/class/<vm|wasm|vm+wasm>`
+fn signatures(c: &SCase, r: &Checked) -> Vec<(String, String)> {
+    let mut by: BTreeMap<String, (Vec<String>, Vec<String>)> = BTreeMap::new();
+    for (clause, b, d) in &r.violations {
+        let e = by.entry(clause.clone()).or_default();
+        e.0.push(b.clone());
+        e.1.push(d.clone());
+    }
+    by.into_iter()
+        .map(|(clause, (bs, ds))| {
+            let sig = if c.family == "lift" {
+                format!("{clause}/{}", bs.join("+"))
+            } else {
+                format!("{clause}/{}/{}", c.class, bs.join("+"))
+            };
+            (sig, ds.join(" | "))
+        })
+        .collect()
+}
+
+fn has_clause(c: &SCase, clause: &str) -> bool {
+    check(c).violations.iter().any(|v| v.0 == clause)
+}
+
+// ====================================================================== program-family cases and their minimiser
+
+fn class_of(marked: &Program) -> String {
+    let ks: BTreeSet<String> = marker_kinds(marked).into_iter().map(|(k, _)| ctx_of(&k)).collect();
+    format!("ctx:{}", ks.into_iter().collect::<Vec<_>>().join("+"))
+}
+
+fn program_case(marked: Program, n: usize, input_seed: u64) -> SCase {
+    let (staged, tags) = render_staged(&marked);
+    let expanded = erase(&marked).print();
+    let class = class_of(&marked);
+    // serde_json refuses to read back values nested deeper than 128 levels: a very deep G-AST is
+    // left out of the case (the two texts are the artefact; only the minimiser and the
+    // reference-interpreter statistic need the G-AST)
+    let keep = json_depth(&serde_json::to_value(&marked).unwrap_or(Value::Null)) <= 100;
+    SCase { family: "program".into(), staged, expanded, tags, class, n, input_seed, marked: if keep { Some(marked) } else { None }, lifts: vec![] }
+}
+fn json_depth(v: &Value) -> usize {
+    match v {
+        Value::Array(a) => 1 + a.iter().map(json_depth).max().unwrap_or(0),
+        Value::Object(o) => 1 + o.values().map(json_depth).max().unwrap_or(0),
+        _ => 0,
+    }
+}
+
+fn unmark_nth(p: &Program, target: usize) -> Program {
+    // replace the target-th marker (pre-order over the items) by its plain expansion
+    let mut k = 0usize;
+    let mut next = max_site(p) + 5000;
+    let mut g = |x: &E| -> Option<E> {
+        if as_marker(x).is_some() {
+            let me = k;
+            k += 1;
+            if me == target {
+                return Some(erase_expr(x, &mut next));
+            }
+        }
+        None
+    };
+    let mut q = p.clone();
+    for (_, _, e) in q.pre_globals.iter_mut() {
+        *e = rewrite(e, &mut g);
+    }
+    for f in q.fns.iter_mut() {
+        f.body = rewrite_block(&f.body, &mut g);
+    }
+    for (_, _, e) in q.globals.iter_mut() {
+        *e = rewrite(e, &mut g);
+    }
+    q.dsp.body = rewrite_block(&q.dsp.body, &mut g);
+    q
+}
+
+fn minimise_program(c: &SCase, clause: &str, max_evals: usize) -> SCase {
+    let Some(mut marked) = c.marked.clone() else { return c.clone() };
+    let mut n = c.n;
+    for cand in [1usize, 2, 4] {
+        if cand < n && has_clause(&program_case(marked.clone(), cand, c.input_seed), clause) {
+            n = cand;
+            break;
+        }
+    }
+    // fewer staging constructs first (outermost markers only are addressable; repeat)
+    loop {
+        let total = marker_kinds(&marked).len();
+        let mut progressed = false;
+        for t in 0..total {
+            let cand = unmark_nth(&marked, t);
+            if marker_kinds(&cand).len() < marker_kinds(&marked).len()
+                && !marker_kinds(&cand).is_empty()
+                && has_clause(&program_case(cand.clone(), n, c.input_seed), clause)
+            {
+                marked = cand;
+                progressed = true;
+                break;
+            }
+        }
+        if !progressed {
+            break;
+        }
+    }
+    let seed = c.input_seed;
+    let mut pred = |p: &Program| {
+        if marker_kinds(p).is_empty() || !crate::gens::tycheck::well_typed(&erase(p)) {
+            return false;
+        }
+        has_clause(&program_case(p.clone(), n, seed), clause)
+    };
+    let small = crate::gens::shrink::shrink(&marked, &mut pred, max_evals);
+    program_case(small, n, seed)
+}
+
+fn minimise_form(c: &SCase, clause: &str) -> SCase {
+    // text pairs: only the run length is reduced (the texts are already small)
+    let mut best = c.clone();
+    for n in [1usize, 2] {
+        if n < best.n {
+            let t = SCase { n, ..best.clone() };
+            if has_clause(&t, clause) {
+                best = t;
+                break;
+            }
+        }
+    }
+    best
+}
+
+// ====================================================================== worker
+
+fn exec(c: &SCase, idx: usize, out: &mut Out) -> bool {
+    let r = check(c);
+    if let Some(w) = &r.inconclusive {
+        out.inconclusive(idx, w);
+        return false;
+    }
+    out.count(&format!("cases:{}", c.family), 1);
+    for t in &c.tags {
+        // marginal counts + the set of (form x context) cells (one counter per cell would be thousands)
+        out.set("form×context cells checked", format!("{}:{t}", c.family));
+        if let Some((f, x)) = t.split_once('×') {
+            out.count(&format!("form-in-quote:{f}"), 1);
+            out.count(&format!("context:{x}"), 1);
+        }
+    }
+    out.count("staging_constructs_checked", c.tags.len() as u64);
+    out.count("output_words_compared", r.compared);
+    out.count("lifted_numbers_compared_by_bits", r.lifts_checked);
+    if r.both_refused > 0 {
+        out.count("both_texts_refused", 1);
+    }
+    if let Some(m) = &c.marked {
+        // whole-program quote: every form of the program passes through the code combinators
+        for f in &m.features {
+            out.count(&format!("feature-in-implicit-program-quote:{f}"), 1);
+        }
+        // the expansion against the reference interpreter (statistic; C02 judges the core language)
+        let er = erase(m);
+        if let Ok((want, flags)) = refsem::run(&er, c.n, &input_fn(c.input_seed, true))
+            && !flags.iter().any(|f| matches!(*f, "nan_condition" | "logic_on_negative_or_nan_operand" | "not_on_nan" | "delay_time_outside_1_to_n_minus_1"))
+            && let Ok(x) = run1(Backend::Vm, &c.expanded, c)
+        {
+            let agree = x.out.len() == want.len() && (0..want.len()).all(|i| bits_eq(want[i], x.out[i]));
+            out.count(if agree { "expansion_agrees_with_reference_interpreter" } else { "expansion_differs_from_reference_interpreter(C02)" }, 1);
+        }
+    }
+    // report
+    let found = signatures(c, &r);
+    for (sig, detail) in &found {
+        let clause = sig.split('/').next().unwrap_or("").to_string();
+        let key = format!("violations:{clause}");
+        let seen = out.counters.get(&key).copied().unwrap_or(0);
+        out.count(&key, 1);
+        if seen == 0 && c.family != "lift" {
+            let small = if c.family == "program" { minimise_program(c, &clause, 150) } else { minimise_form(c, &clause) };
+            let r2 = check(&small);
+            let s2 = signatures(&small, &r2).into_iter().find(|(s, _)| s.split('/').next() == Some(clause.as_str()));
+            match s2 {
+                Some((sig2, d2)) => out.violation(
+                    idx,
+                    &sig2,
+                    &format!("{d2}\n(minimised from a {}-byte staged program)", c.staged.len()),
+                    &serde_json::to_value(&small).unwrap(),
+                ),
+                None => out.violation(idx, sig, detail, &serde_json::to_value(c).unwrap()),
+            }
+        } else if seen < 3 && c.family != "program" {
+            out.violation(idx, sig, detail, &serde_json::to_value(c).unwrap());
+        }
+    }
+    let staged_has_staging = c.staged.contains('$') || c.staged.contains("!(") || c.staged.contains('`');
+    r.ran_all && staged_has_staging && (c.family == "lift" && r.lifts_checked > 0 || c.family != "lift" && r.compared > 0)
+}
+
+fn budgets(args: &Args) -> (usize, usize, usize, usize) {
+    // (form x context pairs, fixtures, lift blocks, generated programs)
+    let nf = forms().len() * FORM_CTXS.len();
+    let nx = fixtures().len();
+    let nl = if args.thorough() { 1500 } else { 60 };
+    let np = args.cases(700, 16000);
+    (nf, nx, nl, np)
+}
+
+pub fn meta(args: &Args) -> Value {
+    let (nf, nx, nl, np) = budgets(args);
+    json!({
+        "level": "exploration",
+        "rule": format!("Three families, each printing the staged program and its hand expansion from ONE description. (form) {} core expression forms as text (literals, variables, applications of 0-5 arguments, lambdas incl. defaults, let with single/tuple/nested/record/placeholder patterns, letrec, if with and without else, sequencing, assignment, tuples, projection, arrays, records incl. update and field assignment, self, now, samplerate, blocks, match, pipes, mem/delay, stateful calls) x {} staging contexts ($(`e) with braces / parentheses / nested, m!(args) and $(m(args)) with the free locals passed as code, m!(args) against $(m(args)), code let-bound at the macro stage and spliced 1-3 times, code through macro-stage functions and closures, numeric recursion nesting code 1/3/8 deep): every pair is enumerated in both tiers. (program) random typed core programs (G-AST generator of C02) in which 1-3 (thorough: 1-5) sub-expressions, also nested, carry a staging marker: the contexts above plus F-typed ones (sum of n<=8 unrolled copies, x^n lambda built by recursion, n-fold application of a named function, multiplication/addition closures applied once or twice, macro-stage global closure) and literals replaced by lift_f/lift of macro-stage arithmetic in six spellings; because the compiler quotes the whole program as soon as one staging construct is present, every form of these programs passes through the code combinators. (lift) blocks of 8 macro-stage arithmetic expressions (0.1+0.2, 1/3, 1e-7, 2^53+1, -0.0, inf, NaN, 1e300, 1e-300, subnormal, f64::MAX, 2^53-1, ... and random trees) lifted in nine spellings (incl. macro-stage let / global / function / numeric recursion) as an 8-channel dsp. (fixture) {} hand-written pairs (genpower, macro-stage closure counters, code arrays folded by recursion, lifted arrays, stage switching). Oracle: accept/reject and every output bit of staged vs expansion, per back end (VM and WASM separately); lifted numbers against the bits the reference interpreter computes for the macro-stage expression. Non-trivial = the staged text contains a staging construct, both texts ran on both back ends and at least one output word (lift: one lifted number) was compared; distinct = hash of the case (both texts + run parameters).", forms().len(), FORM_CTXS.len(), nx),
+        "assumptions": [
+            "the hand expansion is what the one description prints without staging syntax; a quote with braces expands to a block, macro-introduced binders are named c9w",
+            "macro-stage arithmetic is f64 arithmetic (the reference interpreter's), as C02 states for the run time",
+            "generated programs keep out of the core-language findings listed in KNOWN_FINDINGS.txt (quarantines of C01/C02); record patterns are rewritten to field accesses while the quarantine record-pattern-in-quote is listed, the match rows of the form table are skipped while match-in-quote is listed",
+            "generated programs whose expansion needs more than 60000 reference-interpreter steps for its first two samples are not run (exponential call trees through nested higher-order functions); value-changing contexts stay out of recursion counters and delay times"
+        ],
+        "floor": {"quick": 600, "thorough": 8000},
+        "case_timeout_s": 240,
+        "hang_is_violation": false,
+        "crash_is_violation": false,
+        "budget": {"form_x_context": nf, "fixtures": nx, "lift_blocks": nl, "programs": np},
+    })
+}
+
+fn gen_case(args: &Args, idx: usize, rng: &mut Rng) -> Option<SCase> {
+    let (nf, nx, nl, _np) = budgets(args);
+    let fs = forms();
+    if idx < nf {
+        let f = &fs[idx / FORM_CTXS.len()];
+        let ctx = FORM_CTXS[idx % FORM_CTXS.len()];
+        if f.name == "let-record" && args.q("record-pattern-in-quote") || f.name.starts_with("match") && args.q("match-in-quote") {
+            return None;
+        }
+        return Some(form_case(f, ctx, 6, rng.next()));
+    }
+    let idx = idx - nf;
+    if idx < nx {
+        let (name, st, ex) = fixtures()[idx];
+        return Some(SCase {
+            family: "fixture".into(),
+            staged: st.into(),
+            expanded: ex.into(),
+            tags: vec![format!("fixture×{name}")],
+            class: format!("fixture:{name}"),
+            n: 6,
+            input_seed: rng.next(),
+            marked: None,
+            lifts: vec![],
+        });
+    }
+    let idx = idx - nx;
+    if idx < nl {
+        return lift_case(rng, idx);
+    }
+    let feat = feat_for(args, rng);
+    let mut prog = generate(rng, feat);
+    if args.q("record-pattern-in-quote") && has_record_pattern(&prog) {
+        prog = desugar_record_patterns(&prog);
+    }
+    let marked = insert_markers(&prog, rng, if args.thorough() { 5 } else { 3 });
+    if marker_kinds(&marked).is_empty() {
+        return None;
+    }
+    let n = *rng.pick(&[6usize, 12, 24]);
+    let input_seed = rng.next();
+    // Keep out programs whose dsp call is very expensive (call trees through nested higher-order
+    // functions grow exponentially; the VM also keeps every closure passed as an argument, a
+    // recorded C12 finding, so such a run takes gigabytes): the reference interpreter must get
+    // through the first two samples of the expansion within a small step budget.
+    {
+        let er = erase(&marked);
+        let Ok(mut it) = refsem::Interp::new(&er) else { return None };
+        it.max_steps = 60_000;
+        let ich: usize = er.dsp.params.iter().map(|p| p.ty.words()).sum();
+        let inp = input_fn(input_seed, true);
+        for t in 0..2 {
+            let inbuf: Vec<f64> = (0..ich).map(|c| inp(t, c)).collect();
+            if it.tick(&inbuf).is_err() {
+                return None;
+            }
+        }
+    }
+    Some(program_case(marked, n, input_seed))
+}
+
+/// cases per child process: the compiler interns every symbol, expression and type for the life
+/// of the process (a case is four compilations plus a stage-0 run, several MB), so a shard is
+/// worked off by short-lived children of the worker, all appending to the same event stream.
+const CASES_PER_CHILD: usize = 120;
+
+fn run_in_children(args: &Args, total: usize) {
+    let argv: Vec<String> = std::env::args().collect();
+    let exe = std::env::current_exe().expect("exe");
+    let span = CASES_PER_CHILD * args.nshards.max(1);
+    let mut start = args.start;
+    while start < total {
+        let stop = (start + span).min(total);
+        let mut child_args: Vec<String> = vec![];
+        let mut i = 1;
+        while i < argv.len() {
+            if argv[i] == "--start" {
+                i += 2;
+                continue;
+            }
+            child_args.push(argv[i].clone());
+            i += 1;
+        }
+        child_args.extend(["--start".into(), start.to_string(), "--c9stop".into(), stop.to_string(), "--c9child".into(), "1".into()]);
+        let st = std::process::Command::new(&exe).args(&child_args).status();
+        match st {
+            Ok(s) if s.success() => {}
+            Ok(s) => {
+                // die the way the child died: the supervisor attributes it to the open case
+                use std::os::unix::process::ExitStatusExt;
+                if let Some(sig) = s.signal() {
+                    unsafe {
+                        libc::signal(sig, libc::SIG_DFL);
+                        libc::kill(libc::getpid(), sig);
+                    }
+                    std::thread::sleep(std::time::Duration::from_millis(200));
+                }
+                std::process::exit(s.code().unwrap_or(101));
+            }
+            Err(_) => std::process::exit(3),
+        }
+        // a child that grew too much stopped early and left the index to go on from
+        start = match std::fs::read_to_string(next_file(std::process::id())) {
+            Ok(t) => {
+                let _ = std::fs::remove_file(next_file(std::process::id()));
+                t.trim().parse().unwrap_or(stop)
+            }
+            Err(_) => stop,
+        };
+    }
+}
+
+fn next_file(parent: u32) -> std::path::PathBuf {
+    std::env::temp_dir().join(format!("mmv-c09-next-{parent}"))
+}
+/// resident set of this process in MiB
+fn rss_mib() -> usize {
+    std::fs::read_to_string("/proc/self/statm")
+        .ok()
+        .and_then(|t| t.split_whitespace().nth(1).and_then(|x| x.parse::<usize>().ok()))
+        .map(|pages| pages * 4096 / (1 << 20))
+        .unwrap_or(0)
+}
+/// a child hands over to a fresh process beyond this (interned ASTs and closures the VM keeps
+/// are never freed)
+const CHILD_RSS_LIMIT_MIB: usize = 1200;
+
+pub fn run(args: &Args, out: &mut Out) {
+    let (nf, nx, nl, np) = budgets(args);
+    let total = nf + nx + nl + np;
+    if args.only.is_none() && !args.extra.contains_key("c9child") {
+        run_in_children(args, total);
+        return;
+    }
+    if args.extra.contains_key("c9child") {
+        // do not outlive a killed parent
+        unsafe {
+            libc::prctl(libc::PR_SET_PDEATHSIG, libc::SIGKILL);
+        }
+    }
+    let stop: usize = args.extra.get("c9stop").and_then(|s| s.parse().ok()).unwrap_or(usize::MAX);
+    let is_child = args.extra.contains_key("c9child");
+    let handed_over: std::cell::Cell<Option<usize>> = std::cell::Cell::new(None);
+    drive(
+        args,
+        out,
+        total,
+        |idx, rng| {
+            if idx >= stop || handed_over.get().is_some() {
+                return None;
+            }
+            if is_child && rss_mib() > CHILD_RSS_LIMIT_MIB {
+                handed_over.set(Some(idx));
+                return None;
+            }
+            gen_case(args, idx, rng)
+        },
+        exec,
+    );
+    if let Some(idx) = handed_over.get() {
+        out.count("worker_children_recycled_for_memory", 1);
+        let parent = unsafe { libc::getppid() } as u32;
+        let _ = std::fs::write(next_file(parent), idx.to_string());
+    }
+}
+
+pub fn replay(_args: &Args, out: &mut Out, case: &Value) {
+    replay_one::<SCase>(out, case, exec);
+}
